@@ -147,3 +147,21 @@ func init() {
 	addMutant(Mutant{Name: "c34-getorcreate-always-new", Property: "C34", File: "gogen/unordered_list.go",
 		Old: "\tif v, ok := t.{{ .ListName }}[key]; ok {\n\t\treturn v\n\t}\n", New: "\tif v, ok := t.{{ .ListName }}[key]; ok && v == nil {\n\t\treturn v\n\t}\n", Expect: "GetOrCreate:new-only-on-miss"})
 }
+
+func init() {
+	// C33
+	addMutant(Mutant{Name: "c33-string-unquoted", Property: "C33", File: "gogen/goelements.go",
+		Old: "\t\tvalue := fmt.Sprintf(\"%q\", value)\n\t\treturn value, ykind, nil\n\tcase yang.Ybool:", New: "\t\treturn `\"` + value + `\"`, ykind, nil\n\tcase yang.Ybool:", Expect: "yang.Ystring:literal"})
+	addMutant(Mutant{Name: "c33-decimal-unparsed", Property: "C33", File: "gogen/goelements.go",
+		Old: "\t\tval, err := strconv.ParseFloat(value, 64)\n\t\tif err != nil {\n\t\t\treturn \"\", yang.Ynone, fmt.Errorf(\"default value conversion: unable to convert default value %q to %v: %v\", value, ykind, err)\n\t\t}\n\t\tif err := ytypes.ValidateDecimalRestrictions(args.yangType, val); err != nil {", New: "\t\tval := float64(len(value))\n\t\tif err := ytypes.ValidateDecimalRestrictions(args.yangType, val); err != nil {", Expect: "yang.Ydecimal64:literal"})
+	addMutant(Mutant{Name: "c33-string-not-validated", Property: "C33", File: "gogen/goelements.go",
+		Old: "\t\tif err := ytypes.ValidateStringRestrictions(args.yangType, value); err != nil {\n\t\t\treturn \"\", yang.Ynone, fmt.Errorf(\"default value conversion: %q doesn't match string restrictions: %v\", value, err)\n\t\t}\n", New: "", Expect: "yang.Ystring:validated"})
+	addMutant(Mutant{Name: "c33-overwrites-set-leaf", Property: "C33", File: "gogen/gogen.go",
+		Old: "\tif t.{{ $Leaf.Name }} == {{ if $Leaf.IsPtr -}} nil {{- else }} {{ $Leaf.Zero }} {{- end }} {\n\t\t{{- if $Leaf.IsPtr }}\n\t\tvar v", New: "\tif t != nil {\n\t\t{{- if $Leaf.IsPtr }}\n\t\tvar v", Expect: "populateDefaults[template]:stores"})
+	addMutant(Mutant{Name: "c33-ordered-children-skipped", Property: "C33", File: "gogen/gogen.go",
+		Old: "\t{{- range $listName := .ChildOrderedListNames }}\n\tfor _, e := range t.{{ $listName }}.Values() {\n\t\te.PopulateDefaults()\n\t}\n\t{{- end }}\n}", New: "}", Expect: "populateDefaults[template]:descends"})
+	addMutant(Mutant{Name: "c33-key-substring", Property: "C33", File: "gogen/goelements.go",
+		Old: "\tmtype.DefaultValue = defaultValue\n\treturn mtype, nil", New: "\tif p := e.Parent; p != nil && p.IsList() && strings.Contains(p.Key, e.Name) {\n\t\tdefaultValue = nil\n\t}\n\tmtype.DefaultValue = defaultValue\n\treturn mtype, nil", Expect: "Entry.Key#"})
+	addMutant(Mutant{Name: "c33-nonptr-default-dropped", Property: "C33", File: "gogen/gogen.go",
+		Old: "\t\t{{- else }}\n\t\tt.{{ $Leaf.Name }} = {{ $Leaf.Default }}\n\t\t{{- end }}\n\t}", New: "\t\t{{- end }}\n\t}", Expect: "exactly-defaulted-leaves"})
+}
